@@ -74,6 +74,17 @@ def run_jobs(jobs, z3_ms, use_cvc5, procs, stop_at_first_failure=False):
             for (ri, oi), out in zip(again, outs):
                 o = results[ri]["obligations"][oi]
                 o.update(status=out["status"], backend=out["backend"] + " (retry)", time=round(o["time"] + out["time"], 4), detail=out["detail"][:3000])
+    dump = os.environ.get("PYVC_DUMP_DIR")
+    if dump:
+        os.makedirs(dump, exist_ok=True)
+        n = 0
+        for r in results:
+            for o in r["obligations"]:
+                if o["status"] != "proved" and o.get("smt2"):
+                    with open(os.path.join(dump, "ob%03d.smt2" % n), "w") as f:
+                        f.write("; %s\n" % o["name"])
+                        f.write(o["smt2"])
+                    n += 1
     for r in results:
         for o in r["obligations"]:
             if o["status"] == "proved":
@@ -92,6 +103,23 @@ def run(keys, z3_ms=10000, use_cvc5=True, procs=None, mutant=None):
         for ci in range(len(c.cases)):
             jobs.append((key, ci, mutant))
     return run_jobs(jobs, z3_ms, use_cvc5, procs)
+
+
+def _mutant_job(arg):
+    """One mutant of one function-case: generate, then solve obligation by obligation and stop at the first one that is
+    not proved (that is all a mutant has to show)."""
+    key, ci, m, z3_ms = arg
+    r = _gen((key, ci, m))
+    if r["status"] != "ok":
+        return True
+    for o in r["obligations"]:
+        if o["status"] is None:
+            out = _solve((o["smt2"], z3_ms, True))
+            if out["status"] != "proved":
+                return True
+        elif o["status"] != "proved":
+            return True
+    return False
 
 
 def mutant_sweep(keys, z3_ms=5000, procs=None, max_per_fn=None):
@@ -113,11 +141,18 @@ def mutant_sweep(keys, z3_ms=5000, procs=None, max_per_fn=None):
             desc[(key, m)] = mutants.describe(node, m)
             for ci in range(len(c.cases)):
                 jobs.append((key, ci, m))
-    res = run_jobs(jobs, z3_ms, False, procs)
+    ctx = mp.get_context("fork")
+    # baseline: the unmutated function-case must pass under the sweep's own (smaller) solver budget, otherwise "killed" means nothing
+    base = sorted(set((j[0], j[1]) for j in jobs))
+    with ctx.Pool(min(procs or 16, max(1, len(jobs)))) as pool:
+        bres = pool.map(_mutant_job, [(k, ci, None, z3_ms) for k, ci in base], chunksize=1)
+        invalid = set(kc for kc, dead in zip(base, bres) if dead)
+        jobs = [j for j in jobs if (j[0], j[1]) not in invalid]
+        res = pool.map(_mutant_job, [j + (z3_ms,) for j in jobs], chunksize=1)
+    mutant_sweep.invalid = sorted("%s#%d" % (k[1], ci) for k, ci in invalid)
     killed = {}
-    for j, r in zip(jobs, res):
+    for j, dead in zip(jobs, res):
         k = (j[0], j[2])
-        dead = r["status"] != "ok" or any(o["status"] != "proved" for o in r["obligations"])
         killed[k] = killed.get(k, False) or dead
     survivors = sorted((k[0][1], desc[k]) for k, v in killed.items() if not v)
     return len(killed), survivors
@@ -168,7 +203,9 @@ if __name__ == "__main__":
     keys = [k for k in REGISTRY if a.match in k[0] + "::" + k[1]]
     t0 = time.time()
     if a.mutants:
-        n, surv = mutant_sweep(keys)
+        n, surv = mutant_sweep(keys, z3_ms=a.ms)
+        if mutant_sweep.invalid:
+            print("baseline does not pass under the sweep budget (mutants not counted):", mutant_sweep.invalid)
         print("mutants: %d, survivors: %d" % (n, len(surv)))
         for q, d in surv:
             print("   SURVIVOR", q, d)
